@@ -85,7 +85,7 @@ type simHistOpts struct {
 
 // simHistStats describes what a generated history actually exercised.
 type simHistStats struct {
-	CreateRaces, CreatesOverExisting int
+	CreateRaces, CreatesOverExisting                                                                        int
 	ResubmittedFailed                                                                                       int
 	RateLimited                                                                                             int
 	PoolSize                                                                                                int
